@@ -137,6 +137,8 @@ structure Hist where
   own : List Nat := []
   share : List (Nat × String) := []
   finalKeys : Option (List Str) := none
+  frames : List (Nat × Nat × String × Header) := []   -- (exchange, call, cl | chunked | close, trailer section sent)
+  trailers : List (Nat × Header) := []                 -- trailer fields the caller saw after reading the body
   fatal : Option String := none
   t0 : Int := 0
   deriving Repr
@@ -207,6 +209,8 @@ def parseLine (h : Hist) (line : String) : Hist :=
   | ["O", "REQCMP", n, v] => { h with reqcmp := h.reqcmp ++ [(toNat n, v == "same")] }
   | ["O", "LEAK", n] => { h with leak := toNat n }
   | ["O", "OWN", n, "changed", _] => { h with own := toNat n :: h.own }
+  | ["I", "FRAME", n, k, fr, tr] => { h with frames := (toNat n, toNat k, fr, parseHdrs tr) :: h.frames }
+  | ["O", "TRAILER", n, tr] => { h with trailers := (toNat n, parseHdrs tr) :: h.trailers }
   | ["O", "KEYS", ks] => { h with finalKeys := some (if ks == "" then [] else (ks.splitOn ",").map unhex) }
   | ["O", "SHARE", n, what] => { h with share := (toNat n, what) :: h.share }
   | ["O", "FATAL", m] => { h with fatal := some (String.ofList (unhex m)) }
@@ -231,6 +235,9 @@ def Hist.reply (h : Hist) (n k : Nat) : Option ReplyIn :=
   | none => rs.getLast?
 
 def Hist.res (h : Hist) (n : Nat) : Option ResEv := h.ress.find? (·.n = n)
+
+def Hist.frame (h : Hist) (n k : Nat) : Option (String × Header) :=
+  (h.frames.find? fun f => f.1 = n && f.2.1 = k).map fun f => (f.2.2.1, f.2.2.2)
 
 def Hist.stream (h : Hist) (n : Nat) (s : String) : List Ev :=
   h.evs.filter fun
